@@ -131,7 +131,7 @@ impl BTree {
 //@|     && (r->Ok_0.slot >= pg_count(r->Ok_0.buf@) ==> from_le64(r->Ok_0.buf@.subrange(16, 24)) == 0),
 //@loop 1
 //@| invariant tree_pages_ok(pager),
-//@loop 2
+//@loop? 2
 //@| invariant tree_pages_ok(pager), leaf_buf@ == pg(pager, leaf_id.0), pg_kind_ok(leaf_buf@), leaf_buf@[4] == 0, leaf_wf(leaf_buf@), keys_sorted(leaf_cells(leaf_buf@)),
 //@|     leaf_id.0 != 0, slot <= pg_count(leaf_buf@),
 //@| ensures slot < pg_count(leaf_buf@) || from_le64(leaf_buf@.subrange(16, 24)) == 0,
@@ -146,30 +146,370 @@ pub open spec fn inserted_at(o: &Pager, n: &Pager, l: u64, i: int, key: Seq<u8>,
     && (forall|j: int| i <= j < pg_count(pg(o, l)) ==> lex_le(key, #[trigger] leaf_cells(pg(o, l))[j].0))
     && leaf_wf(pg(n, l)) && leaf_cells(pg(n, l)) == leaf_cells(pg(o, l)).insert(i, (key, payload)) && only_changed(o, n, l)
 }
-/// stands for the split branch of BTree::insert (leaf split, separator, insert_into_parent): NOT decided
-pub uninterp spec fn split_happened(o: &Pager, n: &Pager) -> bool;
+// ================================================================== leaf split: sizes, cut point, rebuild
+/// bytes one cell with a key of `klen` bytes takes in a page: slot, key length varint, key, payload / child id
+pub open spec fn cell_sz(klen: int) -> int { 2 + vlen(klen as u32) + klen + 8 }
+/// bytes a run of entries takes in a page (without the page header)
+pub open spec fn ents_sz(s: Seq<(Seq<u8>, u64)>) -> int
+    decreases s.len()
+{ if s.len() == 0 { 0 } else { ents_sz(s.drop_last()) + cell_sz(s.last().0.len() as int) } }
+/// abstract view of an in-memory run of entries
+pub open spec fn eview(v: Seq<(Vec<u8>, u64)>) -> Seq<(Seq<u8>, u64)> { Seq::new(v.len(), |i: int| (v[i].0@, v[i].1)) }
+
+pub proof fn lemma_ents_sz_step(s: Seq<(Seq<u8>, u64)>, i: int)
+    requires 0 <= i < s.len(),
+    ensures ents_sz(s.take(i + 1)) == ents_sz(s.take(i)) + cell_sz(s[i].0.len() as int), ents_sz(s.take(i)) >= 0, cell_sz(s[i].0.len() as int) >= 11,
+    decreases i
+{
+    assert(s.take(i + 1).drop_last() =~= s.take(i));
+    assert(s.take(i + 1).last() == s[i]);
+    if i > 0 { lemma_ents_sz_step(s, i - 1); } else { assert(s.take(0).len() == 0); }
+}
+pub proof fn lemma_ents_sz_mono(s: Seq<(Seq<u8>, u64)>, i: int, j: int)
+    requires 0 <= i <= j <= s.len(),
+    ensures 0 <= ents_sz(s.take(i)) <= ents_sz(s.take(j)),
+    decreases j - i
+{
+    if i < j { lemma_ents_sz_step(s, j - 1); lemma_ents_sz_mono(s, i, j - 1); }
+    else if i > 0 { lemma_ents_sz_step(s, i - 1); } else { assert(s.take(0).len() == 0); }
+}
+/// a run is as large as its two halves together
+pub proof fn lemma_ents_sz_split(s: Seq<(Seq<u8>, u64)>, m: int)
+    requires 0 <= m <= s.len(),
+    ensures ents_sz(s) == ents_sz(s.take(m)) + ents_sz(s.skip(m)), ents_sz(s.skip(m)) >= 0,
+    decreases s.len() - m
+{
+    if m == s.len() {
+        assert(s.take(m) =~= s); assert(s.skip(m).len() == 0);
+    } else {
+        lemma_ents_sz_split(s, m + 1);
+        lemma_ents_sz_step(s, m);
+        // skip(m) = [s[m]] + skip(m + 1): peel the first element of skip(m) by induction on its own prefix sums
+        lemma_ents_sz_front(s.skip(m));
+        assert(s.skip(m).skip(1) =~= s.skip(m + 1));
+    }
+}
+/// a run is its first entry plus the rest
+pub proof fn lemma_ents_sz_front(s: Seq<(Seq<u8>, u64)>)
+    requires s.len() >= 1,
+    ensures ents_sz(s) == cell_sz(s[0].0.len() as int) + ents_sz(s.skip(1)), ents_sz(s.skip(1)) >= 0,
+    decreases s.len()
+{
+    if s.len() == 1 {
+        assert(s.drop_last().len() == 0); assert(s.skip(1).len() == 0);
+        assert(ents_sz(s.drop_last()) == 0); assert(ents_sz(s.skip(1)) == 0); assert(s.last() == s[0]);
+    } else {
+        let t = s.skip(1);
+        assert(t.len() >= 1);
+        assert(ents_sz(t) == ents_sz(t.drop_last()) + cell_sz(t.last().0.len() as int));
+        lemma_ents_sz_front(s.drop_last());
+        assert(s.drop_last().skip(1) =~= s.skip(1).drop_last());
+        assert(s.skip(1).last() == s.last());
+        assert(s.drop_last()[0] == s[0]);
+    }
+}
+pub proof fn lemma_ents_sz_all(s: Seq<(Seq<u8>, u64)>)
+    ensures ents_sz(s) >= 0, forall|i: int| 0 <= i < s.len() ==> cell_sz((#[trigger] s[i]).0.len() as int) <= ents_sz(s),
+{
+    assert(s.take(s.len() as int) =~= s);
+    assert forall|i: int| 0 <= i < s.len() implies cell_sz((#[trigger] s[i]).0.len() as int) <= ents_sz(s) by {
+        lemma_ents_sz_step(s, i); lemma_ents_sz_mono(s, i + 1, s.len() as int);
+    }
+    lemma_ents_sz_mono(s, 0, s.len() as int);
+}
+/// both halves of a cut at `m` fit one leaf page
+pub open spec fn cut_fits(s: Seq<(Seq<u8>, u64)>, m: int) -> bool { ents_sz(s.take(m)) <= 8168 && ents_sz(s.skip(m)) <= 8168 }
+
+// C26.split.cell_space — the size the split code charges per cell is the size leaf_insert_at needs for it.
+//@extract nervusdb-storage/src/index/btree.rs cell_space ret r
+//@| requires cell_sz(key_len as int) <= usize::MAX,
+//@| ensures r == cell_sz(key_len as int),
+//@end
+
+// C26.split.leaf_split_point — a cut returned by the split-point search leaves a non-empty right half and
+// two halves that each fit a leaf page; the search fails only when no cut does.
+//@extract nervusdb-storage/src/index/btree.rs leaf_split_point ret r
+//@| requires entries@.len() >= 1, ents_sz(eview(entries@)) <= usize::MAX,
+//@| ensures r is Ok ==> 0 <= r->Ok_0 < entries@.len() && cut_fits(eview(entries@), r->Ok_0 as int),
+//@|     r is Err ==> forall|m: int| 0 <= m < entries@.len() ==> !#[trigger] cut_fits(eview(entries@), m),
+//@proof before 1 "let mut total = 0usize;"
+//@| lemma_ents_sz_all(eview(entries@));
+//@| assert(eview(entries@).take(0).len() == 0);
+//@loop "for i in 0..entries.len()"
+//@| invariant total == ents_sz(eview(entries@).take(i as int)), ents_sz(eview(entries@)) <= usize::MAX,
+//@|     forall|k: int| 0 <= k < entries@.len() ==> cell_sz((#[trigger] eview(entries@)[k]).0.len() as int) <= ents_sz(eview(entries@)),
+//@proof before 1 "total += cell_space("
+//@| lemma_ents_sz_step(eview(entries@), i as int);
+//@| lemma_ents_sz_mono(eview(entries@), i + 1, entries@.len() as int);
+//@| assert(eview(entries@).take(entries@.len() as int) =~= eview(entries@));
+//@| assert(eview(entries@)[i as int].0 == entries@[i as int].0@);
+//@proof before 1 "let mut best_mid = entries.len();"
+//@| assert(eview(entries@).take(entries@.len() as int) =~= eview(entries@));
+//@loop "for mid in 0..entries.len()"
+//@| invariant left == ents_sz(eview(entries@).take(mid as int)), total == ents_sz(eview(entries@)), cap == 8168,
+//@|     forall|k: int| 0 <= k < entries@.len() ==> cell_sz((#[trigger] eview(entries@)[k]).0.len() as int) <= ents_sz(eview(entries@)),
+//@|     best_mid <= entries@.len(),
+//@|     best_mid < entries@.len() ==> cut_fits(eview(entries@), best_mid as int),
+//@|     best_mid == entries@.len() ==> forall|m: int| 0 <= m < mid ==> !#[trigger] cut_fits(eview(entries@), m),
+//@proof before 1 "let right = total - left;"
+//@| lemma_ents_sz_mono(eview(entries@), mid as int, entries@.len() as int);
+//@| assert(eview(entries@).take(entries@.len() as int) =~= eview(entries@));
+//@| lemma_ents_sz_split(eview(entries@), mid as int);
+//@| lemma_ents_sz_step(eview(entries@), mid as int);
+//@| lemma_ents_sz_mono(eview(entries@), mid + 1, entries@.len() as int);
+//@| assert(eview(entries@)[mid as int].0 == entries@[mid as int].0@);
+//@end
+
+impl<'a> Page<'a> {
+// C26.split.rebuild_leaf — rebuilding a page from a run of entries that fits yields a well-formed leaf whose
+// view is exactly that run, in the same order, with the given right sibling; no insertion can fail (the
+// `unwrap()` of the original is a proved obligation).
+//@extract nervusdb-storage/src/index/btree.rs Page::rebuild_leaf
+//@| requires ents_sz(eview(entries@)) <= 8168,
+//@| ensures *final(final(self).buf) == *final(old(self).buf), leaf_wf(final(self).b()), leaf_cells(final(self).b()) == eview(entries@),
+//@|     from_le64(final(self).b().subrange(16, 24)) == right_sibling.0,
+//@proof before 1 "=self.set_right_sibling(right_sibling);" raw
+//@| let ghost s0 = self.b();
+//@proof after 1 "=self.set_right_sibling(right_sibling);"
+//@| let b = self.b();
+//@| lemma_le64_len(right_sibling.0);
+//@| assert(b.subrange(0, 4) =~= s0.subrange(0, 4));
+//@| assert(b.subrange(6, 8) =~= s0.subrange(6, 8));
+//@| assert(b.subrange(8, 10) =~= s0.subrange(8, 10));
+//@| assert(pg_count(b) == 0 && pg_begin(b) == 8192);
+//@| assert(leaf_wf(b));
+//@| assert(leaf_cells(b) =~= eview(entries@).take(0));
+//@| lemma_ents_sz_all(eview(entries@));
+//@| assert(eview(entries@).take(0).len() == 0);
+//@loop 1
+//@| invariant *final(self.buf) == *final(old(self).buf), leaf_wf(self.b()), leaf_cells(self.b()) == eview(entries@).take(i as int),
+//@|     pg_count(self.b()) == i, pg_begin(self.b()) == 8192 - (ents_sz(eview(entries@).take(i as int)) - 2 * i),
+//@|     from_le64(self.b().subrange(16, 24)) == right_sibling.0, ents_sz(eview(entries@)) <= 8168,
+//@|     forall|k: int| 0 <= k < entries@.len() ==> cell_sz((#[trigger] eview(entries@)[k]).0.len() as int) <= ents_sz(eview(entries@)),
+//@proof before 1 "self.leaf_insert_at("
+//@| lemma_ents_sz_step(eview(entries@), i as int);
+//@| lemma_ents_sz_mono(eview(entries@), i + 1, entries@.len() as int);
+//@| assert(eview(entries@).take(entries@.len() as int) =~= eview(entries@));
+//@| assert(eview(entries@)[i as int] == (k@, *v));
+//@proof after 1 "self.leaf_insert_at("
+//@| assert(eview(entries@).take(i as int).insert(i as int, (k@, *v)) =~= eview(entries@).take(i + 1));
+//@proof before 1 "=}"
+//@| assert(eview(entries@).take(entries@.len() as int) =~= eview(entries@));
+//@end
+}
+
+// ================================================================== internal split: cut point, rebuild
+pub open spec fn kview(v: Seq<Vec<u8>>) -> Seq<(Seq<u8>, u64)> { Seq::new(v.len(), |i: int| (v[i]@, 0u64)) }
+pub open spec fn iview(v: Seq<(Vec<u8>, PageId)>) -> Seq<(Seq<u8>, u64)> { Seq::new(v.len(), |i: int| (v[i].0@, v[i].1.0)) }
+pub open spec fn firsts(s: Seq<(Seq<u8>, u64)>) -> Seq<Seq<u8>> { Seq::new(s.len(), |i: int| s[i].0) }
+pub open spec fn seconds(s: Seq<(Seq<u8>, u64)>) -> Seq<u64> { Seq::new(s.len(), |i: int| s[i].1) }
+/// with separator `m` moved up, the separators on each side of it fit one internal page
+pub open spec fn promote_fits(s: Seq<(Seq<u8>, u64)>, m: int) -> bool { ents_sz(s.take(m)) <= 8160 && ents_sz(s.skip(m + 1)) <= 8160 }
+
+// C26.split.internal_split_point — the separator chosen to move up leaves two sides that each fit an internal
+// page; the search fails only when no choice does.
+//@extract nervusdb-storage/src/index/btree.rs internal_split_point ret r
+//@| requires ents_sz(kview(keys@)) <= usize::MAX,
+//@| ensures r is Ok ==> 0 <= r->Ok_0 < keys@.len() && promote_fits(kview(keys@), r->Ok_0 as int),
+//@|     r is Err ==> forall|m: int| 0 <= m < keys@.len() ==> !#[trigger] promote_fits(kview(keys@), m),
+//@proof before 1 "let mut total = 0usize;"
+//@| lemma_ents_sz_all(kview(keys@));
+//@| assert(kview(keys@).take(0).len() == 0);
+//@loop "for i in 0..keys.len()"
+//@| invariant total == ents_sz(kview(keys@).take(i as int)), ents_sz(kview(keys@)) <= usize::MAX,
+//@|     forall|k: int| 0 <= k < keys@.len() ==> cell_sz((#[trigger] kview(keys@)[k]).0.len() as int) <= ents_sz(kview(keys@)),
+//@proof before 1 "total += cell_space("
+//@| lemma_ents_sz_step(kview(keys@), i as int);
+//@| lemma_ents_sz_mono(kview(keys@), i + 1, keys@.len() as int);
+//@| assert(kview(keys@).take(keys@.len() as int) =~= kview(keys@));
+//@| assert(kview(keys@)[i as int].0 == keys@[i as int]@);
+//@proof before 1 "let mut best_mid = keys.len();"
+//@| assert(kview(keys@).take(keys@.len() as int) =~= kview(keys@));
+//@loop "for mid in 0..keys.len()"
+//@| invariant left == ents_sz(kview(keys@).take(mid as int)), total == ents_sz(kview(keys@)), cap == 8160,
+//@|     forall|k: int| 0 <= k < keys@.len() ==> cell_sz((#[trigger] kview(keys@)[k]).0.len() as int) <= ents_sz(kview(keys@)),
+//@|     best_mid <= keys@.len(),
+//@|     best_mid < keys@.len() ==> promote_fits(kview(keys@), best_mid as int),
+//@|     best_mid == keys@.len() ==> forall|m: int| 0 <= m < mid ==> !#[trigger] promote_fits(kview(keys@), m),
+//@proof before 1 "let right = total - left - "
+//@| lemma_ents_sz_mono(kview(keys@), mid + 1, keys@.len() as int);
+//@| assert(kview(keys@).take(keys@.len() as int) =~= kview(keys@));
+//@| lemma_ents_sz_split(kview(keys@), mid + 1);
+//@| lemma_ents_sz_step(kview(keys@), mid as int);
+//@| assert(kview(keys@)[mid as int].0 == keys@[mid as int]@);
+//@end
+
+impl<'a> Page<'a> {
+// C26.split.rebuild_internal — rebuilding an internal page from separators and children that fit succeeds and
+// yields a well-formed page with exactly those separators and children, in order.
+//@extract nervusdb-storage/src/index/btree.rs Page::rebuild_internal ret r
+//@| requires ents_sz(iview(cells@)) <= 8160,
+//@| ensures *final(final(self).buf) == *final(old(self).buf), r is Ok, internal_wf(final(self).b()),
+//@|     int_seps(final(self).b()) == firsts(iview(cells@)), int_children(final(self).b()) == seconds(iview(cells@)),
+//@|     int_child(final(self).b(), 0) == leftmost_child.0,
+//@proof after 1 "self.init_internal(leftmost_child);"
+//@| let b = self.b();
+//@| assert(int_seps(b) =~= firsts(iview(cells@).take(0)));
+//@| assert(int_children(b) =~= seconds(iview(cells@).take(0)));
+//@| lemma_ents_sz_all(iview(cells@));
+//@| assert(iview(cells@).take(0).len() == 0);
+//@loop 1
+//@| invariant *final(self.buf) == *final(old(self).buf), internal_wf(self.b()),
+//@|     int_seps(self.b()) == firsts(iview(cells@).take(i as int)), int_children(self.b()) == seconds(iview(cells@).take(i as int)),
+//@|     int_child(self.b(), 0) == leftmost_child.0,
+//@|     pg_count(self.b()) == i, pg_begin(self.b()) == 8192 - (ents_sz(iview(cells@).take(i as int)) - 2 * i), ents_sz(iview(cells@)) <= 8160,
+//@|     forall|k: int| 0 <= k < cells@.len() ==> cell_sz((#[trigger] iview(cells@)[k]).0.len() as int) <= ents_sz(iview(cells@)),
+//@proof before 1 "self.internal_insert_at("
+//@| lemma_ents_sz_step(iview(cells@), i as int);
+//@| lemma_ents_sz_mono(iview(cells@), i + 1, cells@.len() as int);
+//@| assert(iview(cells@).take(cells@.len() as int) =~= iview(cells@));
+//@| assert(iview(cells@)[i as int] == (k@, child.0));
+//@proof after 1 "self.internal_insert_at("
+//@| assert(firsts(iview(cells@).take(i as int)).insert(i as int, k@) =~= firsts(iview(cells@).take(i + 1)));
+//@| assert(seconds(iview(cells@).take(i as int)).insert(i as int, child.0) =~= seconds(iview(cells@).take(i + 1)));
+//@proof before 1 "=Ok(())"
+//@| assert(iview(cells@).take(cells@.len() as int) =~= iview(cells@));
+//@end
+}
+
+/// right-sibling link of a page
+pub open spec fn sib(b: Seq<u8>) -> u64 { from_le64(b.subrange(16, 24)) }
+/// leaf `l` was full and has been split around the new entry: the entry went in front of all equal keys,
+/// the run was cut in two, the left part stays in `l`, the right part went to page `r`, which is chained in
+/// between `l` and l's old right sibling, `sep` is the first key of `r`, and no other page changed.
+/// (r != l: that the allocator returns a page other than a live one is C18.)
+pub open spec fn leaf_split_ok(o: &Pager, n: &Pager, l: u64, r: u64, i: int, key: Seq<u8>, payload: u64, sep: Seq<u8>) -> bool {
+    leaf_wf(pg(o, l)) && 0 <= i <= pg_count(pg(o, l))
+    && (forall|j: int| 0 <= j < i ==> lex_lt(#[trigger] leaf_cells(pg(o, l))[j].0, key))
+    && (forall|j: int| i <= j < pg_count(pg(o, l)) ==> lex_le(key, #[trigger] leaf_cells(pg(o, l))[j].0))
+    && (r != l ==> leaf_wf(pg(n, l)) && leaf_wf(pg(n, r))
+        && leaf_cells(pg(n, l)) + leaf_cells(pg(n, r)) == leaf_cells(pg(o, l)).insert(i, (key, payload))
+        && keys_sorted(leaf_cells(pg(n, l))) && keys_sorted(leaf_cells(pg(n, r)))
+        && leaf_cells(pg(n, r)).len() >= 1 && sep == leaf_cells(pg(n, r))[0].0
+        && sib(pg(n, l)) == r && sib(pg(n, r)) == sib(pg(o, l)))
+    && (forall|x: u64| x != l && x != r ==> #[trigger] pg(n, x) == pg(o, x))
+}
+/// stands for what BTree::insert_into_parent does to the pages above the split leaf: NOT decided
+pub uninterp spec fn parent_updated(n: &Pager) -> bool;
+pub open spec fn at_most_two_changed(o: &Pager, n: &Pager) -> bool {
+    forall|x: u64, y: u64, z: u64| pg(n, x) != pg(o, x) && pg(n, y) != pg(o, y) && pg(n, z) != pg(o, z) ==> x == y || y == z || x == z
+}
+
+pub proof fn lemma_leaf_cells_sz(b: Seq<u8>, i: int)
+    requires leaf_wf(b), 0 <= i <= pg_count(b),
+    ensures 0 <= ents_sz(leaf_cells(b).take(i)) <= i * 8207,
+    decreases i
+{
+    if i == 0 { assert(leaf_cells(b).take(0).len() == 0); } else {
+        lemma_leaf_cells_sz(b, i - 1);
+        lemma_ents_sz_step(leaf_cells(b), i - 1);
+        let off = pg_slot(b, i - 1);
+        assert(lc_ok(b, off));
+        axiom_vdec_bounds(b.skip(off));
+    }
+}
+pub proof fn lemma_ents_sz_insert(s: Seq<(Seq<u8>, u64)>, pos: int, x: (Seq<u8>, u64))
+    requires 0 <= pos <= s.len(),
+    ensures ents_sz(s.insert(pos, x)) == ents_sz(s) + cell_sz(x.0.len() as int),
+{
+    let t = s.insert(pos, x);
+    lemma_ents_sz_split(t, pos);
+    lemma_ents_sz_split(s, pos);
+    assert(t.take(pos) =~= s.take(pos));
+    lemma_ents_sz_front(t.skip(pos));
+    assert(t.skip(pos).skip(1) =~= s.skip(pos));
+    assert(t.skip(pos)[0] == x);
+}
+
+//@trusted v_collect_leaf_entries: `(0..page.cell_count()).map(|i| { let (k, v) = page.leaf_cell_key_and_payload(i).unwrap(); (k.to_vec(), v) }).collect()` yields entry i of the page for i = 0..count in order (map/collect over a range: std; the closure body is Page::leaf_cell_key_and_payload, whose contract is proved in this unit and which cannot fail on a well-formed leaf: precondition)
+#[verifier::external_body]
+pub fn v_collect_leaf_entries<'a>(page: &Page<'a>) -> (r: Vec<(Vec<u8>, u64)>)
+    requires leaf_wf(page.b()),
+    ensures eview(r@) == leaf_cells(page.b()),
+{ unimplemented!() }
+//@trusted v_partition_point_lt: `entries.partition_point(|(k, _)| k.as_slice() < key)` on a run whose keys are in order (hence partitioned by `< key`: precondition) is the index of the first entry whose key is not below `key` (std)
+#[verifier::external_body]
+pub fn v_partition_point_lt(entries: &Vec<(Vec<u8>, u64)>, key: &[u8]) -> (r: usize)
+    requires keys_sorted(eview(entries@)),
+    ensures r <= entries@.len(),
+        forall|j: int| 0 <= j < r ==> lex_lt(#[trigger] eview(entries@)[j].0, key@),
+        forall|j: int| r <= j < entries@.len() ==> lex_le(key@, #[trigger] eview(entries@)[j].0),
+{ unimplemented!() }
+//@trusted v_entries_to_vec: `entries[a..b].to_vec()` clones the entries a..b in order (std; std panics unless a <= b <= len: precondition)
+#[verifier::external_body]
+pub fn v_entries_to_vec(entries: &Vec<(Vec<u8>, u64)>, a: usize, b: usize) -> (r: Vec<(Vec<u8>, u64)>)
+    requires a <= b <= entries@.len(),
+    ensures eview(r@) == eview(entries@).subrange(a as int, b as int),
+{ unimplemented!() }
+//@trusted v_bytes_clone: Vec<u8>::clone yields equal bytes (std)
+#[verifier::external_body]
+pub fn v_bytes_clone(v: &Vec<u8>) -> (r: Vec<u8>)
+    ensures r@ == v@,
+{ v.clone() }
+
 impl BTree {
-    //@trusted v_split_branch: the `Err(_) => { .. }` arm of BTree::insert (collect the leaf's entries, split at the median, rebuild both leaves, insert the separator into the parent) uses iterator adapters (map/collect, partition_point, enumerate) that Verus cannot ingest; it is replaced by this stub, which says nothing about what the split does - cross-page behaviour is not decided
+    //@trusted insert_into_parent: BTree::insert_into_parent (separator into the parent, internal split, new root) uses iterator adapters (zip/skip/collect) that Verus cannot ingest; it is replaced by this stub, which says nothing about what happens to the pages above the leaf - that part of a split is not decided
     #[verifier::external_body]
-    pub fn v_split_branch(&mut self, pager: &mut Pager, path: &mut Vec<PathEntry>, cur: PageId, key: &[u8], payload: u64) -> (r: Result<()>)
-        ensures split_happened(old(pager), final(pager))
+    pub fn insert_into_parent(&mut self, pager: &mut Pager, path: &mut Vec<PathEntry>, left_id: PageId, sep_key: Vec<u8>, right_id: PageId) -> (r: Result<()>)
+        ensures parent_updated(final(pager))
     { unimplemented!() }
 
-// C26.tree.insert.no_split — tree-level contract of BTree::insert for the case that the leaf reached by
-// the descent has room: exactly one page changes, a leaf, by inserting exactly (key, payload) at the
-// lower-bound position of the key in that leaf - in front of all equal keys there, so a lookup that
-// reaches this leaf returns the new payload.  (The split case is a stub: not decided.)  Termination not proved.
+// C26.tree.insert.no_split / C26.tree.insert.split_leaf — tree-level contract of BTree::insert.  When the leaf
+// reached by the descent has room: exactly one page changes, a leaf, by inserting exactly (key, payload) at the
+// lower-bound position of the key in that leaf - in front of all equal keys there, so a lookup that reaches
+// this leaf returns the new payload.  When it is full: at the moment insert_into_parent is called the store
+// satisfies leaf_split_ok (in-body obligation) - the new entry is in front of all equal keys, the two halves
+// hold exactly the old entries plus the new one in order, each half fits its page (rebuild_leaf's
+// precondition, established from leaf_split_point's contract), the sibling chain runs l -> r -> old right
+// sibling, and the separator handed to the parent is the first key of the right half.  What
+// insert_into_parent then does is a stub: not decided.  Termination not proved.
 //@extract nervusdb-storage/src/index/btree.rs BTree::insert ret r
 //@attr #[verifier::exec_allows_no_decreases_clause]
 //@| requires tree_pages_ok(old(pager)), key@.len() <= 0x7fff_ffff_ffff_ffff,
-//@| ensures r is Ok ==> split_happened(old(pager), final(pager)) || exists|l: u64, i: int| #[trigger] inserted_at(old(pager), final(pager), l, i, key@, payload),
-//@|     r is Err ==> split_happened(old(pager), final(pager)) || forall|x: u64, y: u64| pg(final(pager), x) != pg(old(pager), x) && pg(final(pager), y) != pg(old(pager), y) ==> x == y,
-//@preregex "(?s)Err\(_\) => \{\s*// Split leaf\..*?self\.insert_into_parent\(pager, &mut path, cur, sep_key, right_id\)\?;\s*return Ok\(\(\)\);\s*\}" => "Err(_) => { return self.v_split_branch(pager, &mut path, cur, key, payload); }"
+//@| ensures r is Ok ==> parent_updated(final(pager)) || exists|l: u64, i: int| #[trigger] inserted_at(old(pager), final(pager), l, i, key@, payload),
+//@|     r is Err ==> parent_updated(final(pager)) || at_most_two_changed(old(pager), final(pager)),
+//@preregex "(?s)\(0\.\.page\.cell_count\(\)\)\s*\.map\(\|i\| \{.*?\}\)\s*\.collect\(\);" => "v_collect_leaf_entries(&page);"
+//@prewrite "entries.partition_point(|(k, _)| k.as_slice() < key)" => "v_partition_point_lt(&entries, key)"
+//@prewrite "(key.to_vec(), payload)" => "(v_slice_to_vec(key), payload)"
+//@prewrite "entries[..mid].to_vec()" => "v_entries_to_vec(&entries, 0, mid)"
+//@prewrite "entries[mid..].to_vec()" => "v_entries_to_vec(&entries, mid, entries.len())"
+//@preregex "(\w+)\[0\]\.0\.clone\(\)" => "v_bytes_clone(&\1[0].0)"
 //@loop 1
 //@| invariant tree_pages_ok(old(pager)), forall|o: u64| #[trigger] pg(pager, o) == pg(old(pager), o), *pager == *old(pager),
 //@|     key@.len() <= 0x7fff_ffff_ffff_ffff,
 //@proof before 1 "=return Ok(());"
 //@| assert(inserted_at(old(pager), pager, cur.0, idx as int, key@, payload));
+//@proof before 1 "let pos = " raw
+//@| let ghost cells0 = leaf_cells(pg(old(pager), cur.0));
+//@| proof { assert(page.b() == pg(old(pager), cur.0)); assert(eview(entries@) == cells0); }
+//@proof after 1 "entries.insert(" raw
+//@| let ghost cells1 = cells0.insert(pos as int, (key@, payload));
+//@| proof {
+//@|     assert(eview(entries@) =~= cells1);
+//@|     lemma_leaf_cells_sz(pg(old(pager), cur.0), pg_count(pg(old(pager), cur.0)));
+//@|     assert(cells0.take(cells0.len() as int) =~= cells0);
+//@|     lemma_ents_sz_insert(cells0, pos as int, (key@, payload));
+//@|     lemma_insert_at_lower_bound(cells0, pos as int, key@, payload);
+//@| }
+//@proof after 1 "let right_entries = "
+//@| assert(eview(left_entries@) =~= cells1.take(mid as int));
+//@| assert(eview(right_entries@) =~= cells1.skip(mid as int));
+//@| assert(eview(right_entries@)[0] == (right_entries@[0].0@, right_entries@[0].1));
+//@proof before 1 "self.insert_into_parent(" raw
+//@| proof {
+//@|     let o = old(pager); let l = cur.0; let rr = right_id.0;
+//@|     if rr != l {
+//@|         assert(pg(pager, l) == buf@ && pg(pager, rr) == right_buf@);
+//@|         assert(leaf_cells(pg(pager, l)) + leaf_cells(pg(pager, rr)) =~= cells1);
+//@|         assert(keys_sorted(leaf_cells(pg(pager, l)))) by {
+//@|             assert forall|a: int, b: int| 0 <= a < b < mid implies lex_le(#[trigger] cells1.take(mid as int)[a].0, #[trigger] cells1.take(mid as int)[b].0) by { assert(lex_le(cells1[a].0, cells1[b].0)); }
+//@|         }
+//@|         assert(keys_sorted(leaf_cells(pg(pager, rr)))) by {
+//@|             assert forall|a: int, b: int| 0 <= a < b < cells1.len() - mid implies lex_le(#[trigger] cells1.skip(mid as int)[a].0, #[trigger] cells1.skip(mid as int)[b].0) by { assert(lex_le(cells1[mid + a].0, cells1[mid + b].0)); }
+//@|         }
+//@|     }
+//@|     assert(leaf_split_ok(o, pager, l, rr, pos as int, key@, payload, sep_key@));
+//@| }
 //@end
 }
 
@@ -178,4 +518,7 @@ impl BTree {
 //@canary|pub proof fn canary_insert_fits(b: Seq<u8>, k: Seq<u8>) requires leaf_wf(b), pg_count(b) == 1, k.len() == 300, 24 + 2 * pg_count(b) + 2 + vlen(k.len() as u32) + k.len() + 8 <= pg_begin(b) ensures false {}
 
 } // verus!
+// `Result::unwrap` (Page::rebuild_leaf) needs `Error: Debug` for its panic message; the derive is dropped by the
+// extraction (R4), so a trivial impl stands in - the panic itself is proved unreachable.
+impl core::fmt::Debug for Error { fn fmt(&self, f: &mut core::fmt::Formatter<'_>) -> core::fmt::Result { f.write_str("Error") } }
 fn main() {}
